@@ -168,6 +168,17 @@ Theorem C05_no_snapshot_missed_partial : forall g ls,
 Proof. exact no_snapshot_missed_partial. Qed.
 Print Assumptions C05_no_snapshot_missed_partial.
 
+(* corollary: once the Stream loop has HANDLED the queued push (pushConnection / pushConnectionDelta
+   -> computeProxyState, with or without watches), proxy.LastPushContext - the context every later
+   subscription is answered from - is the newest committed context, and nothing is left queued;
+   for every interleaving without a Push in the window of the finding above. *)
+Theorem C05_handled_push_is_served : forall g ls,
+  let s := yrun (sys0 g) ls in
+  y_missed s = false -> y_pc s = 3%nat -> y_pending s = None ->
+  y_lpc (handle s) = y_global s /\ y_queue (handle s) = [].
+Proof. exact handled_push_is_served. Qed.
+Print Assumptions C05_handled_push_is_served.
+
 (* non-vacuity: a reconnect that presents a stale nonce and three retained clusters, one unchanged,
    one changed, one deleted *)
 Example C05_resync_example :
